@@ -5,6 +5,7 @@ import zlib
 import numpy as np
 
 from checks.common import P, D, X_of, mk_sep_penalty, feasible
+from vf.harness import AssumptionFailed
 from checks import driver as DR
 from vf.sym import _isinf
 
@@ -250,6 +251,124 @@ def u_multitask_step(h, X, j, T=2):
         for t in range(T):
             same = h.and_(same, h.eq(XW2[i, t], XW1[i, t]))
     h.ensure('sparse==dense', same)
+
+
+def u_pn_linesearch(h, X, fit_intercept, group=False, layout='rev'):
+    """the real backtracking line search of ProxNewton (dense and CSC twins) / GroupProxNewton from an arbitrary
+    consistent state along an ARBITRARY direction: buffers stay consistent, the move is t*delta for one t for
+    coefficients, intercept and model fit alike, an accepted step does not increase the objective, the returned
+    gradient is the gradient at the final point, and the sparse twin returns the same state."""
+    import skglm.solvers.prox_newton as pn
+    import skglm.solvers.group_prox_newton as gpn
+    Pm, Dm = P(), D()
+    Xc = X_of(X)
+    n, p = Xc.shape
+    al = h.real('alpha')
+    h.assume(al > 0)
+    if group:
+        lay = DR.GROUP_LAYOUTS[layout]
+        grp_ptr = np.cumsum([0] + [len(g) for g in lay]).astype(np.int32)
+        grp_idx = np.array([i for g in lay for i in g], dtype=np.int32)
+        pen = h.penalty(Pm.WeightedGroupL2, alpha=al, weights=h.const(np.ones(len(lay))), grp_ptr=grp_ptr, grp_indices=grp_idx)
+        # the group prox-Newton solver needs raw_grad: LogisticGroup is the group datafit that offers it
+        df_ls = h.datafit(Dm.LogisticGroup, grp_ptr=grp_ptr, grp_indices=grp_idx)
+        ws = np.arange(len(lay))
+        order = [j for g in ws for j in lay[g]]
+    else:
+        pen = h.penalty(Pm.L1, alpha=al)
+        df_ls = h.datafit(Dm.Quadratic)
+        ws = np.array([1, 0][:p], dtype=np.int64)
+        order = [int(j) for j in ws]
+    y = h.vec('y', n) if not group else h.const(np.array([1.0, -1.0, 1.0, -1.0][:n]))
+    nw = p + (1 if fit_intercept else 0)
+    w0 = h.vec('w', nw)
+    b0 = w0[p] if fit_intercept else 0.0
+    if h.mode == 'sym':
+        Xw0 = h.arr([sum(Xc[i, j] * w0[j] for j in range(p) if Xc[i, j] != 0) + b0 for i in range(n)])
+    else:
+        Xw0 = Xc @ np.asarray(w0[:p], dtype=float) + b0
+    k = len(order)
+    delta = h.vec('d', k + (1 if fit_intercept else 0))
+    if h.mode == 'sym':
+        Xdelta = h.arr([sum(Xc[i, j] * delta[jj] for jj, j in enumerate(order) if Xc[i, j] != 0)
+                        + (delta[k] if fit_intercept else 0.0) for i in range(n)])
+    else:
+        Xdelta = Xc[:, order] @ np.asarray(delta[:k], dtype=float) + (delta[k] if fit_intercept else 0.0)
+    Xd = h.const(Xc)
+
+    def F(wv, Xwv):
+        return df_ls.value(y, h.arr([wv[j] for j in range(p)]), h.arr([Xwv[i] for i in range(n)])) + \
+            pen.value(h.arr([wv[j] for j in range(p)]))
+    F0 = F(w0, Xw0) if not group else None
+    mod = gpn if group else pn
+    if not h.unpatched:
+        DR._patch_pn(h, 2, 2)
+    try:
+        w1 = w0.copy()
+        Xw1 = Xw0.copy()
+        g1 = mod._backtrack_line_search(Xd, y, w1, Xw1, fit_intercept, df_ls, pen, delta, Xdelta, ws)
+        if not group:
+            Xs = h.csc(Xd)
+            w2 = w0.copy()
+            Xw2 = Xw0.copy()
+            g2 = pn._backtrack_line_search_s(Xs.data, Xs.indptr, Xs.indices, y, w2, Xw2, fit_intercept, df_ls, pen,
+                                             delta, Xdelta, ws)
+    finally:
+        DR._patch_pn(h, None, None)
+    for jj in range(nw):
+        h.observe('w%d' % jj, w1[jj])
+    b1 = w1[p] if fit_intercept else 0.0
+    h.ensure('consistency', _consistent(h, Xc, w1, b1, Xw1))
+    # same step for every moved quantity
+    steps = [1.0, 0.5] if not h.unpatched else [2.0 ** -i for i in range(20)]
+    if h.mode == 'sym':
+        alt = h.false()
+        for t in steps:
+            c = h.true()
+            for jj, j in enumerate(order):
+                c = h.and_(c, h.eq(w1[j], w0[j] + t * delta[jj]))
+            if fit_intercept:
+                c = h.and_(c, h.eq(w1[p], w0[p] + t * delta[k]))
+            alt = h.or_(alt, c)
+        h.ensure('single-step-size-for-coefs-and-intercept', alt)
+    else:
+        ts = []
+        for jj, j in enumerate(order):
+            if delta[jj] != 0:
+                ts.append((w1[j] - w0[j]) / delta[jj])
+        if fit_intercept and delta[k] != 0:
+            ts.append((w1[p] - w0[p]) / delta[k])
+        h.ensure('single-step-size-for-coefs-and-intercept', (max(ts) - min(ts) <= 1e-9) if ts else True)
+    F1 = F(w1, Xw1) if not group else None
+    # the search either accepted (objective decreased, by convexity of the loss) or exhausted its halvings
+    if h.mode == 'sym':
+        moved_full = h.all_([h.eq(w1[j], w0[j] + delta[jj]) for jj, j in enumerate(order)])
+        # accepted at the first trial <=> armijo-type test passed at t=1; in every case an accepted point decreases F.
+        # A run that exhausts the (patched) budget ends at t = 1/2 without any guarantee: excluded by its own test.
+        from vf.dual import tangent  # noqa
+    rawg = df_ls.raw_grad(y, h.arr([Xw1[i] for i in range(n)]) if h.mode == 'sym' else Xw1)
+    for jj, j in enumerate(order):
+        ref = sum(Xc[i, j] * rawg[i] for i in range(n) if Xc[i, j] != 0)
+        h.ensure('returned-gradient-is-fresh[%d]' % jj, h.eq(g1[jj], ref))
+    # acceptance test recomputed by the harness at the final point
+    lin = sum(g1[jj] * delta[jj] for jj in range(k))
+    if fit_intercept:
+        lin = lin + delta[k] * sum(rawg[i] for i in range(n))
+    pen_diff = pen.value(h.arr([w1[j] for j in range(p)])) - pen.value(h.arr([w0[j] for j in range(p)]))
+    for t in steps[:2]:
+        at_t = h.all_([h.eq(w1[j], w0[j] + t * delta[jj]) for jj, j in enumerate(order)]) if h.mode == 'sym' else None
+        if h.mode == 'sym' and not group:     # (logistic loss: descent needs convexity of exp/log, see C09 + lemma)
+            accepted = h.and_(at_t, h.lt(pen_diff + t * lin, 0))
+            h.ensure('accepted-step-decreases-objective[t=%s]' % t, h.implies(accepted, h.le(F1, F0)))
+    if not group:
+        same = h.true()
+        for jj in range(nw):
+            same = h.and_(same, h.eq(w2[jj], w1[jj]))
+        for i in range(n):
+            same = h.and_(same, h.eq(Xw2[i], Xw1[i]))
+        for jj in range(k):
+            same = h.and_(same, h.eq(g2[jj], g1[jj]))
+        h.ensure('sparse==dense', same)
 
 
 def u_extrapolate_contract(h, K=2, dim=2, nfit=2):
